@@ -80,7 +80,14 @@ def ev(t, env):
         return None
     if "v" in t and k in ("lit", "icast", "cast", "bin", "un", "defarg") and t.get("v") is not None:
         return t["v"]
+    if k == "call":
+        if "v" in t and t.get("v") is not None:
+            return t["v"]             # constant-evaluated call (std::numeric_limits<T>::max())
+        short = strip_targs(t.get("fn") or "").rsplit("::", 1)[-1]
+        return env.get(("call", short))
     if k == "var":
+        if env.get(("name", t.get("n"))) is not None and t.get("n") is not None:
+            return env[("name", t["n"])]
         if "v" in t and "d" not in t:
             return t["v"]
         if "d" in t:
@@ -146,7 +153,9 @@ def _assign(ev_, env):
     """Apply the effect of one root event on env (simple scalar stores)."""
     k = ev_["k"]
     if k == "decl" and "e" in ev_ and "d" in ev_.get("var", {}):
-        env[("v", ev_["var"]["d"])] = ev(ev_["e"], env)
+        val = ev(ev_["e"], env)
+        if val is not None or ("pin", ev_["var"]["d"]) not in env:
+            env[("v", ev_["var"]["d"])] = val
         if "Status" in (ev_["var"].get("t") or ""):
             c = ev_["e"]
             while isinstance(c, dict) and c.get("k") in ("copy", "icast"):
@@ -167,7 +176,7 @@ def _assign(ev_, env):
                 env[("f", l["n"])] = ev(t.get("r"), env)
 
 
-def explore(fn, env0, on_block, max_states=4000):
+def explore(fn, env0, on_block, max_states=4000, dead_edges=()):
     """DFS over (block, env); conditions that evaluate take one edge, unknown
     ones both.  on_block(block, env) -> False stops that path."""
     seen = set()
@@ -197,5 +206,7 @@ def explore(fn, env0, on_block, max_states=4000):
         else:
             nxt = [s for s in succ if s is not None]
         for s in nxt:
+            if (bid, s) in dead_edges:
+                continue
             stack.append((s, dict(env)))
     return n
